@@ -143,7 +143,7 @@ def _structure_worker(cells, tier, backends, is_canary):
         tmo = 30000 if tier == "quick" else 120000
         for be in backends:
             widest, nbr = max(max(nc) for _, nc in cells), sum(len(nc) for _, nc in cells)
-            if be == "jaxley.stone" and (widest > 3 or (widest == 3 and (tier == "quick" or nbr > 3))):
+            if be == "jaxley.stone" and (widest > 3 or (widest == 3 and (tier == "quick" or nbr > 1))):
                 continue        # Stone's LU on wider branches exceeds the solver budget of this tier: assumed there (stated in the evidence)
             Ctx.reset()
             P = sym_params(topo.N)
@@ -191,6 +191,7 @@ def main(tier):
     failed_funcs = set()
     reached = {}
     viol = 0
+    n_replayed = 0
     for o in outs[:len(S)]:
         if o[0] != "ok":
             ck.error(o[1][:500])
@@ -206,7 +207,16 @@ def main(tier):
         rp = None
         for r in o["results"]:
             ck.add(r)
-        if bad:
+        if bad and n_replayed >= 6:
+            rp = {"reproduced": False, "reason": "native replay limited to the first 6 failing structures of a run (each replay jit-compiles several programs)"}
+            for r in bad[:5]:
+                failed_funcs.add(r["name"].split(":")[0])
+                if viol < 40:
+                    ck.violation(r["name"], {"solver": r["backend"], "solver_output": r["detail"], "model": r["model"], "cells": o["cells"], "kind": "c01",
+                                             "replay_module": "jxverif.props.C01", "replay": rp}, reproduced=False)
+                    viol += 1
+        elif bad:
+            n_replayed += 1
             # one native replay per structure: all backends, both implicit schemes, against a dense solve of the spec
             try:
                 rp = native_compare(o["cells"])
@@ -245,7 +255,7 @@ def main(tier):
     ck.extra["structures"] = {"count": n_struct, "exhaustive_within_bound": True,
                               "bound": ("all parent vectors with parents[i]<i for <= 4 branches x ncomp in {1,2}; single branches up to 4 compartments; 2 deeper samples; 6 networks of 2-3 cells; 3 unsorted parent vectors"
                                         if tier == "quick" else "trees <= 4 branches x ncomp in {1,2,3}; all 5-branch trees x ncomp in {1,2}; <= 3 branches with a 4-compartment branch; 60 seeded random trees <= 7 branches / <= 4 compartments; all 2- and 3-cell networks over a 6-cell family")}
-    ck.trusted = ["jax.experimental.sparse.linalg.spsolve solves the CSR system it is given", "tridiax.stone_*: its real code runs through the same chain obligations for structures with <= 2 compartments per branch (thorough: also <= 3 compartments when the module has at most 3 branches); for wider branches it is ASSUMED to compute the same function as tridiax.thomas_* (which runs through the chain for every structure)",
+    ck.trusted = ["jax.experimental.sparse.linalg.spsolve solves the CSR system it is given", "tridiax.stone_*: its real code runs through the same chain obligations for structures with <= 2 compartments per branch (thorough: also the single 3-compartment branch); for wider branches it is ASSUMED to compute the same function as tridiax.thomas_* (which runs through the chain for every structure)",
                   "jax.numpy/lax/vmap primitive models", "z3 nlsat", "specs/cable.py states the physics",
                   "cited: a strictly diagonally dominant M-matrix system has exactly one solution"]
     ck.assumptions += ["positive radius/length/axial resistivity/capacitance, membrane conductance terms >= 0, dt > 0; all REAL values (proved), static structure enumerated (bounded)",
@@ -294,6 +304,10 @@ def native_compare(cells, seed=0, dt=0.1, backends=("jaxley.thomas", "jaxley.sto
             out["backends"][be] = {"refused": f"{type(e).__name__}: {str(e)[:100]}"}
     out["reproduced"] = bool(worst > 1e-6)
     out["reason"] = f"max |v_backend - dense solve of the specification| = {worst:.3e} mV"
+    try:
+        jax.clear_caches()          # every replay compiles new programs; keep the process small
+    except Exception:
+        pass
     return out
 
 
